@@ -175,6 +175,7 @@ type RequestStream struct {
 	sentRequest   bool
 	requestedGzip bool
 	isConnect     bool
+	isHead        bool
 }
 
 func newRequestStream(
@@ -301,6 +302,7 @@ func (s *RequestStream) sendRequestHeader(req *http.Request) error {
 		s.requestedGzip = true
 	}
 	s.isConnect = req.Method == http.MethodConnect
+	s.isHead = req.Method == http.MethodHead
 	s.sentRequest = true
 	return s.requestWriter.WriteRequestHeader(s.str.datagramStream, req, s.requestedGzip, s.str.StreamID(), s.str.qlogger)
 }
@@ -374,6 +376,12 @@ func (s *RequestStream) ReadResponse() (*http.Response, error) {
 	isInformational := res.StatusCode >= 100 && res.StatusCode < 200
 	isNoContent := res.StatusCode == http.StatusNoContent
 	isSuccessfulConnect := s.isConnect && res.StatusCode >= 200 && res.StatusCode < 300
+	// Responses to HEAD requests, and 1xx, 204 and 304 responses never carry content,
+	// but (except for 1xx and 204) may declare the Content-Length of the selected representation.
+	// All other responses must carry as many bytes as declared, see section 4.1.2 of RFC 9114.
+	if s.isHead || isInformational || isNoContent || res.StatusCode == http.StatusNotModified {
+		respBody.body.noContentExpected = true
+	}
 	if (isInformational || isNoContent || isSuccessfulConnect) && res.ContentLength == -1 {
 		res.ContentLength = 0
 	}
